@@ -110,16 +110,30 @@ def Editor.applyR (e : Editor D L) : Op L → Outcome (Editor D L × Value)
   | .clear => .ok (e.clear env, .unit)
   | .ack => .ok (e.ack, .unit)
   | .clearSyl => .ok (e.clearSyllableEditor env, .unit)
-  | .setOptions o => .ok (e.setOptions env o, .unit)
-  | .setLayout l => .ok (e.setLayout env l, .unit)
+  | .setOptions o => (Editor.revalidate env (e.setOptions env o)).map fun e' => (e', .unit)
+  | .setLayout l => (Editor.revalidate env (e.setLayout env l)).map fun e' => (e', .unit)
   | .setEngine k => .ok ({ e with shared := { e.shared with engine := k } }, .unit)
-  | .learn k p => (Shared.learnPhrase env e.shared k p).map fun r => ({ e with shared := r.1 }, .bool r.2)
-  | .unlearn k p => .ok ({ e with shared := Shared.unlearnPhrase env e.shared k p }, .bool true)
+  | .learn k p =>
+    match Shared.learnPhrase env e.shared k p with
+    | .ok (sh, okk) => (Editor.revalidate env { e with shared := sh }).map fun e' => (e', .bool okk)
+    | .panic q => .panic q
+    | .outOfFuel => .outOfFuel
+  | .unlearn k p =>
+    (Editor.revalidate env { e with shared := Shared.unlearnPhrase env e.shared k p }).map fun e' => (e', .bool true)
   | .jump w => (e.jump env w).map fun r => (r.1, .bool r.2)
 
 /-- `applyR` is `apply` plus the return value -/
 theorem Editor.applyR_fst (e : Editor D L) (op : Op L) : (e.applyR env op).map (·.1) = e.apply env op := by
-  cases op <;> simp only [Editor.applyR, Editor.apply, Outcome.map_map] <;> rfl
+  have map_id : ∀ {α : Type} (r : Outcome α), r.map (fun a => a) = r := by intro α r; cases r <;> rfl
+  cases op <;> simp only [Editor.applyR, Editor.apply, Outcome.map_map] <;> try rfl
+  case setOptions => exact map_id _
+  case setLayout => exact map_id _
+  case unlearn => exact map_id _
+  case learn k p =>
+    cases Shared.learnPhrase env e.shared k p with
+    | ok r => obtain ⟨sh, okk⟩ := r; simp only [Outcome.map_map]; exact map_id _
+    | panic q => rfl
+    | outOfFuel => rfl
 
 /-- a history with all return values -/
 def Editor.runR (e : Editor D L) : List (Op L) → Outcome (Editor D L × List Value)
